@@ -535,7 +535,9 @@ func (dp *DPoVP) LoadTopCandidates(blockHash common.Hash) types.DeputyNodes {
 // LoadRefundCandidates get the address list of candidates who need to refund
 func (dp *DPoVP) LoadRefundCandidates(height uint32) ([]common.Address, error) {
 	result := make([]common.Address, 0)
-	addrList, err := dp.db.GetAllCandidates()
+	// The candidates must be the ones in the state of the parent block. The candidate list of the stable blocks only is different
+	// from node to node, then a candidate who registered in a block which is not stable on this node yet would not be refunded here
+	addrList, err := dp.db.GetAllCandidatesByBlock(dp.am.BaseBlockHash())
 	if err != nil {
 		log.Errorf("Load all candidates fail: %v", err)
 		return nil, err
